@@ -96,4 +96,12 @@ TEXT["C13"] = dict(engine="verus+engineB",
          "client-named identifier which is one of ours), and the table differs from the old one only at the row of yiaddr.",
    note="Assumed: accessor contracts of DhcpOptions/ResponseOptions (HashMap glue), SQL stub contracts; recvdhcp's serverids bookkeeping (async, locks) not under contract.")
 
+TEXT["C18"] = dict(engine="verus+engineB",
+   technique="Verus contracts on Pool::{setup_db, upgrade_schema_from_no_version, upgrade_schema_from_version_0} over a ghost database (version row, write counter) with a terminating loop, allocate_address write frame, engine B reopening file-backed SQLite databases",
+   level="Unbounded deductive proof: setup_db terminates, preserves the lease rows, ends with schema version 1, takes the upgrade steps in order each followed by the version record, and refuses a "
+         "database whose stored version is above 1 before any statement has written (emission-point assertion on the write counter); allocate_address writes exactly one row and only after every error return. "
+         "Bounded on real SQLite: for every table of the bound, rows survive close+reopen of a file-backed database, a version-0 schema file is upgraded with rows preserved, a version-2 file is refused and left unmodified.",
+   note="NOT decided: kill at an arbitrary instant (durability and atomicity of SQLite's autocommit are trusted), 'behaves exactly as an uninterrupted server' beyond 'same table => same contract'. "
+        "R18: functions writing through self.conn are given &mut self in the extracted text.")
+
 NA = {}
